@@ -61,7 +61,7 @@ func (w *World) newController() (*core.Controller, error) {
 		return nil, err
 	}
 	opts := core.Options{
-		FetcherOptions: scanner.FetcherOptions{BatchSize: w.C.Batch, ParallelFetch: w.C.Fetchers, StartIndex: int64(w.C.Start), EndIndex: 0, Continuous: w.C.Cont},
+		FetcherOptions: scanner.FetcherOptions{BatchSize: w.C.Batch, ParallelFetch: w.C.Fetchers, StartIndex: int64(w.C.Start), EndIndex: int64(w.C.End), Continuous: w.C.Cont},
 		Submitters:     w.C.Submitters,
 		ChannelSize:    w.C.Chan,
 	}
